@@ -266,7 +266,7 @@ def directiveParse (inc : IncludeFn) (cur : Str) (incs : List Str)
     | .cseg | .dseg | .eseg =>
       let t := match d with | .cseg => SegT.code | .dseg => .data | _ => .eeprom
       if !st.lastSeg.items.isEmpty then ok (st.addSegment { items := [], t := t, address := 0 })
-      else ok (st.modifyLast fun s => { s with t := t })
+      else ok (st.modifyLast fun s => { s with t := t, address := if s.t ≠ t then 0 else s.address })
     | .device =>
       match ops, first with
       | .opList _, some (.e (.ident name)) =>
